@@ -471,6 +471,8 @@ func init() {
 		c13xSuite(r, rng, tier)
 		// association GRAPHS with shared in-memory records, visit map (c13_graphs.go)
 		c13gSuite(r, rng, tier)
+		// what the hook BODIES do: SetColumn / Changed / re-entrant operations / faults at every position (c13_bodies.go)
+		c13bSuite(r, rng, tier)
 	})
 	replayers["C13/hooks"] = func(r *Result, input json.RawMessage) {
 		var c c13Case
